@@ -11,6 +11,7 @@ sys.path.insert(0, os.path.dirname(os.path.abspath(__file__)))
 
 import bitcoinlib.keys as _keys
 import bitcoinlib.main as _main
+import bitcoinlib.networks as _networks
 import bitcoinlib.wallets as _wallets
 from bitcoinlib.keys import path_expand
 from bitcoinlib.main import get_key_structure_data
@@ -23,6 +24,7 @@ class NullLog:
 
 
 _keys._logger = NullLog()
+_networks._logger = NullLog()
 _wallets._logger = NullLog()
 
 H = 2 ** 31
@@ -365,16 +367,19 @@ WRONG_NAMES = ('foo', "foo'", 'acount', "account_id'", 'Account', 'index', 'coin
 
 
 def ck_refuse_wrong_name(net, wt, ms, a, c, i, k, pos, w):
-    """a level that is neither a number nor one of the documented level names, at any position below m, in the
-    named and in the numeric full path, and as last item of a relative request"""
+    """a level that is neither a number nor one of the documented level names, at any position below m in the full
+    path given by names, and as last item of a relative request"""
     lv = list(levels(wt, ms))
-    named = list(lv)
-    named[1 + pos % (len(lv) - 1)] = WRONG_NAMES[w]
-    numeric = _full_items(net, wt, ms, a, c, i, k)
-    numeric[1 + pos % (len(lv) - 1)] = WRONG_NAMES[w]
+    lv[1 + pos % (len(lv) - 1)] = WRONG_NAMES[w]
     kw = dict(account_id=a, cosigner_id=k, change=c, address_index=i, **_kw(net, wt, ms))
-    return _refused(lambda: path_expand('/'.join(named), **kw)) and _refused(lambda: path_expand(numeric, **kw)) \
-        and _refused(lambda: path_expand([c, WRONG_NAMES[w]], **kw))
+    return _refused(lambda: path_expand('/'.join(lv), **kw)) and _refused(lambda: path_expand([c, WRONG_NAMES[w]], **kw))
+
+
+def ck_refuse_wrong_name_numeric(net, wt, ms, a, c, i, k, pos, w):
+    """the same inside a spelled-out numeric full path"""
+    numeric = _full_items(net, wt, ms, a, c, i, k)
+    numeric[1 + pos % (len(numeric) - 1)] = WRONG_NAMES[w]
+    return _refused(lambda: path_expand(numeric, **_kw(net, wt, ms)))
 
 
 def ck_refuse_name_network(net, wt, ms, a, c, i, k, pos):
@@ -421,3 +426,4 @@ def ck_defaults(c, i):
     account 0, network bitcoin, single-sig native segwit (BIP84)"""
     return path_expand([c, i]) == spec_path('bitcoin', 'segwit', False, 0, c, i, 0) and \
         path_expand([c, i], witness_type='segwit') == ['m', "84'", "0'", "0'", str(c), str(i)]
+
